@@ -249,11 +249,16 @@ def run(ctx, sess):
     ctx.rule('C02.1', 'columns: every store into, load from or compare with a summary entry column JLS_SUMMARY_FSR_{MEAN,STD,MIN,MAX} is paired with the quantity of that name (writer reductions, reader conversions, level-0 statistics, reconstruction)')
     ctx.rule('C02.2', 'extremes: every local minimum / maximum accumulator of the reductions starts at +MAX / -MAX and is replaced only under the compare (or fmin / fmax) of its own direction')
     ctx.rule('C02.3', 'coverage: a level-1 entry reduces sample_decimate_factor samples and a level-L entry summary_decimate_factor entries of the level below in the writer, and the reader steps by sample_decimate_factor x summary_decimate_factor^(L-1) samples per entry of level L (traced for L = 1..5)')
+    ctx.rule('C02.6', 'the first whole summary entry of a request is found on the grid of the summary chunk: traced for starts, chunk timestamps and steps that are not multiples of each other, the entry sample id is the chunk timestamp plus a whole number of steps, lies in [start, start + step), and the entry index is that number of steps')
+    ctx.rule('C02.7', 'the writer builds its variances from squared deviations (two passes), never as mean of squares minus square of the mean (sign analysis of every value stored into a variance accumulator of wr_fsr.c)')
     ctx.rule('C02.4', 'sample-id frames on the statistics path: the sample_id_offset is applied exactly once to each value and no compare mixes an api-relative id with a file id')
     ctx.rule('C02.5', 'shared: non-finite values are skipped at every level (C09.4); accumulator algebra of statistics.c - alias safety, empty operands, extremes, non-negative variance, no division by a zero count (C20.1-C20.5); the summary payload length covers every entry of either width (C05.11); the level-0 scratch is filled only up to its allocated length (C10.23)')
     columns_rule(ctx, P, 'C02.1')
     extremes_rule(ctx, P, 'C02.2')
     coverage_rule(ctx, P, 'C02.3')
+    entry_grid_rule(ctx, P, 'C02.6')
+    from .c20 import variance_locals_rule
+    variance_locals_rule(ctx, P, 'C02.7')
     from .frames import frames_rule
     frames_rule(ctx, P, 'C02.4', kinds=('statistics',), minimum=2)
     from .common import relay
@@ -262,3 +267,70 @@ def run(ctx, sess):
     relay(ctx, sess, _c20.run, {'C20.1': 'C02.5', 'C20.2': 'C02.5', 'C20.3': 'C02.5', 'C20.4': 'C02.5', 'C20.5': 'C02.5'}, minimum=10)
     relay(ctx, sess, _c05.run, {'C05.11': 'C02.5'}, minimum=1)
     relay(ctx, sess, _c10.run, {'C10.23': 'C02.5'}, minimum=2)
+    from . import c15 as _c15
+    relay(ctx, sess, _c15.run, {'C15.10': 'C02.5'}, minimum=1)
+
+
+
+def entry_grid_rule(ctx, P, rule):
+    from ..fd import trace_calls, Top
+    from ..ir import path_of
+    rd = P.fn('fsr_statistics')
+    keys = {}
+    for b in rd.blocks.values():
+        for e in [ev.e for ev in b.events if ev.e is not None] + ([b.cond] if b.cond is not None else []):
+            for m in walk(e):
+                if m.get('op') == 'member' and m.get('field') in ('sample_decimate_factor', 'summary_decimate_factor', 'timestamp', 'entry_size_bits', 'entry_count', 'sample_id_offset'):
+                    p = path_of(m) or rd.path(m)
+                    if p is not None:
+                        keys.setdefault(m['field'], set()).add(str(p))
+    need = ('sample_decimate_factor', 'summary_decimate_factor', 'timestamp', 'entry_size_bits')
+    if not all(k_ in keys for k_ in need):
+        raise AnalysisBroken('fsr_statistics: members not found: %s' % [k_ for k_ in need if k_ not in keys])
+    resets = list(rd.calls('jls_statistics_reset'))
+    if not resets:
+        raise AnalysisBroken('fsr_statistics: no accumulator reset to anchor the trace')
+    names = {ev.name for ev in rd.events('decl')}
+    if not {'entry_offset', 'entry_sample_id'} <= names:
+        # the two quantities are found by what they are: the local compared with the start id, and the local added to the source index
+        raise AnalysisBroken('fsr_statistics: first-entry locals not found')
+    startp, lvlp = rd.params[2]['name'], rd.params[4]['name']
+    bad = []
+    n = 0
+    for (a, bfac, L) in ((3, 5, 1), (3, 5, 2), (7, 2, 3)):
+        step = a * bfac ** (L - 1)
+        for chunk in (0, 1003, step * 4 + 1, 7):
+            for start in (chunk, chunk + 1, chunk + step - 1, chunk + step, chunk + 2 * step + 3):
+                env = {'self': 1, startp: start, lvlp: L}
+                for k_ in keys['sample_decimate_factor']:
+                    env[k_] = a
+                for k_ in keys['summary_decimate_factor']:
+                    env[k_] = bfac
+                for k_ in keys['timestamp']:
+                    env[k_] = chunk
+                for k_ in keys['entry_size_bits']:
+                    env[k_] = 128
+                for k_ in keys.get('entry_count', ()):
+                    env[k_] = 1000
+                for k_ in keys.get('sample_id_offset', ()):
+                    env[k_] = 0
+                got = {}
+
+                def on_event(ev, env_, sym, got=got):
+                    if ev in resets and not got:
+                        got['off'] = env_.get('entry_offset')
+                        got['sid'] = env_.get('entry_sample_id')
+                try:
+                    trace_calls(P, rd, env, assume_calls=0, partial=True, max_steps=4000, on_event=on_event, no_inline=('rd_stats_chunk',))
+                except Top:
+                    pass
+                if got.get('off') is None or got.get('sid') is None:
+                    raise AnalysisBroken('fsr_statistics: first entry not decidable for start %d chunk %d step %d' % (start, chunk, step))
+                n += 1
+                sid, off = got['sid'], got['off']
+                if (sid - chunk) % step or not (start <= sid < start + step) or off != (sid - chunk) // step:
+                    bad.append('start %d, chunk at %d, step %d: first whole entry taken at sample %d, index %d (entries of this chunk begin at %d + k x %d)' % (start, chunk, step, sid, off, chunk, step))
+    ctx.ob(rule, not bad, rd.name, 'first whole summary entry of a request', resets[0].where(),
+           'on the grid of the summary chunk for %d (start, chunk, step) combinations' % n if not bad else
+           '; '.join(bad[:2]) + ': the head and the tail of the window are then computed from the wrong samples (counted twice or dropped) whenever the signal does not start at a multiple of the step')
+    ctx.floor('first-entry traces', n, 40)
